@@ -105,6 +105,12 @@ def bounded_cases(seed, thorough=False):
     diffs = {'parameter': mkm(2.0, 5.5, (0.0, 1.0), (0.0, 5.0), 0.0), 'range': mkm(2.0, 5.0, (0.0, 2.0), (0.0, 5.0), 0.0), 'rmse': mkm(2.0, 5.0, (0.0, 1.0), (0.0, 5.0), 0.25),
              'parameter_by_one': mkm(3, 5, (0, 1), (0, 5), 0)}
     same = [k for k, v in diffs.items() if v.iso_id == mf.iso_id]
+    # (model numbers are content at full precision: the 8-decimal rule of the property is about data points)
+    small = {'K 2e-9 vs 4e-9': (mkm(2e-9, 5.0, (0.0, 1.0), (0.0, 5.0), 0.0), mkm(4e-9, 5.0, (0.0, 1.0), (0.0, 5.0), 0.0)),
+             'K 0.002 vs 0.002000000003': (mkm(0.002, 5.0, (0.0, 1.0), (0.0, 5.0), 0.0), mkm(0.002000000003, 5.0, (0.0, 1.0), (0.0, 5.0), 0.0)),
+             'rmse 1e-10 vs 3e-10': (mkm(2.0, 5.0, (0.0, 1.0), (0.0, 5.0), 1e-10), mkm(2.0, 5.0, (0.0, 1.0), (0.0, 5.0), 3e-10)),
+             'range end 1e-9 vs 2e-9': (mkm(2.0, 5.0, (1e-9, 1.0), (0.0, 5.0), 0.0), mkm(2.0, 5.0, (2e-9, 1.0), (0.0, 5.0), 0.0))}
+    same += [k for k, (u, v) in small.items() if u.iso_id == v.iso_id or u == v]
     yield {'name': 'construction_route|model_differing_in_one_number_has_another_identifier', 'ok': not same, 'detail': ', '.join(same)}
     okp = type(mi.model.params['K']) is int and mi.model.pressure_range == (0, 1)
     yield {'name': 'construction_route|model_unchanged_by_identifier_query', 'ok': okp, 'detail': '' if okp else f"{mi.model.params} {mi.model.pressure_range}"}
